@@ -150,6 +150,18 @@ pub fn mk_group(g: u8, nostr: u8, name: u8, epoch: u8, state: u8, admins: u8, la
     }
 }
 
+/// cut-off of a prune call: `min_back` seconds before now; the sentinel u32::MAX stands for the
+/// largest cut-off the interface accepts (everything is older)
+pub fn prune_cutoff(now: u64, min_back: u32) -> u64 {
+    if min_back == u32::MAX { u64::MAX } else { now.saturating_sub(min_back as u64) }
+}
+
+/// search term of the tag-content lookup; values from 100 up spell the term in upper case (the
+/// contract is a literal substring match: another spelling is another term and matches nothing)
+pub fn tag_needle(tag: u8) -> String {
+    if tag >= 100 { format!("TAGVAL{}", tag - 100) } else { format!("tagval{tag}") }
+}
+
 pub fn mk_message(g: u8, id: u8, ca: u8, pa: u8, state: u8, epoch: Option<u8>, content: u8, wrapper: u8, tag: u8) -> Message {
     let pk = pubkey(content % 3);
     let created_at = Timestamp::from(TS_POOL[(ca % 5) as usize]);
@@ -274,7 +286,7 @@ fn apply_inner<S: MdkStorageProvider>(s: &S, op: &StOp, now: u64) -> Value {
         StOp::FindInvalidatedProcessed { g } => res(s.find_invalidated_processed_messages(&gid(*g)).map(|v| sorted(v.into_iter().map(|m| serde_json::to_value(m).unwrap()).collect()))),
         StOp::FailedForRetry { g } => res(s.find_failed_messages_for_retry(&gid(*g)).map(|v| sorted(v.into_iter().map(|i| json!(i.to_hex())).collect()))),
         StOp::MarkRetryable { w } => res(s.mark_processed_message_retryable(&wrapper_id(*w))),
-        StOp::EpochByTag { g, tag } => res(s.find_message_epoch_by_tag_content(&gid(*g), &format!("tagval{tag}"))),
+        StOp::EpochByTag { g, tag } => res(s.find_message_epoch_by_tag_content(&gid(*g), &tag_needle(*tag))),
         StOp::SaveWelcome { id, g, nostr, state, wrapper } => res(s.save_welcome(mk_welcome(*id, *g, *nostr, *state, *wrapper))),
         StOp::FindWelcome { id } => res(s.find_welcome_by_event_id(&event_id(*id))),
         StOp::PendingWelcomes { limit, offset } => res(s.pending_welcomes(Some(WPagination { limit: limit.map(|l| l as usize), offset: offset.map(off) }))),
@@ -290,7 +302,7 @@ fn apply_inner<S: MdkStorageProvider>(s: &S, op: &StOp, now: u64) -> Value {
         StOp::Rollback { g, name } => res(s.rollback_group_to_snapshot(&gid(*g), &format!("snap{name}"))),
         StOp::Release { g, name } => res(s.release_group_snapshot(&gid(*g), &format!("snap{name}"))),
         StOp::ListSnapshots { g } => res(s.list_group_snapshots(&gid(*g)).map(|v| sorted(v.into_iter().map(|(n, t)| json!([n, t])).collect()))),
-        StOp::Prune { min_back } => res(s.prune_expired_snapshots(now.saturating_sub(*min_back as u64))),
+        StOp::Prune { min_back } => res(s.prune_expired_snapshots(prune_cutoff(now, *min_back))),
         StOp::MlsWrite { g, kind, val } => {
             let b = Blob(vec![*val; 3]);
             let id = ogid(*g);
@@ -567,7 +579,7 @@ impl Model {
                 _ => err(),
             },
             StOp::EpochByTag { g, tag } => {
-                let needle = format!("tagval{tag}");
+                let needle = tag_needle(*tag);
                 let cands: BTreeSet<u64> = self
                     .messages
                     .iter()
@@ -646,7 +658,7 @@ impl Model {
             }
             StOp::ListSnapshots { g } => ok(sorted(self.snapshots.iter().filter(|((gg, _), _)| gg == g).map(|((_, n), (t, ..))| json!([format!("snap{n}"), t])).collect())),
             StOp::Prune { min_back } => {
-                let min = now.saturating_sub(*min_back as u64);
+                let min = prune_cutoff(now, *min_back);
                 let before = self.snapshots.len();
                 self.snapshots.retain(|_, (t, ..)| *t >= min);
                 ok(before - self.snapshots.len())
@@ -708,7 +720,7 @@ pub fn gen_ops(r: &mut Rng, n: usize, with_mls: bool, snapshot_heavy: bool) -> V
             27 => StOp::FindInvalidatedProcessed { g },
             28 => StOp::FailedForRetry { g },
             29 => StOp::MarkRetryable { w },
-            30 => StOp::EpochByTag { g, tag: r.below(3) as u8 },
+            30 => StOp::EpochByTag { g, tag: r.below(3) as u8 + if r.chance(1, 4) { 100 } else { 0 } },
             31 => StOp::SaveWelcome { id, g, nostr: r.below(N_NOSTR as u64) as u8, state: r.below(4) as u8, wrapper: w },
             32 => StOp::FindWelcome { id },
             33 => StOp::PendingWelcomes { limit: limit.map(|l| if l > 10 && l != MAX_MESSAGE_LIMIT as u32 + 1 { l } else { l }), offset },
@@ -735,7 +747,21 @@ pub fn gen_ops(r: &mut Rng, n: usize, with_mls: bool, snapshot_heavy: bool) -> V
             v.push(m);
         }
         if r.chance(1, 25) {
-            v.push(StOp::Prune { min_back: [0, 1, 2, 1000][r.below(4) as usize] });
+            v.push(StOp::Prune { min_back: [0, 1, 2, 1000, u32::MAX][r.below(5) as usize] });
+        }
+        if with_mls && r.chance(1, 40) {
+            // an ordered list (own leaf nodes) that is long enough for its row ids to cross a
+            // decimal digit boundary, snapshotted, extended and rolled back: the order must
+            // come back as it was
+            let g = r.below(2) as u8;
+            let name = r.below(3) as u8;
+            for i in 0..(9 + r.below(5) as u8) {
+                v.push(StOp::MlsAppendLeaf { g: if i % 4 == 3 { 1 - g } else { g }, val: 10 + i });
+            }
+            v.push(StOp::Snapshot { g, name });
+            v.push(StOp::MlsAppendLeaf { g, val: 99 });
+            v.push(StOp::Rollback { g, name });
+            v.push(StOp::FindGroup { g });
         }
         if snapshot_heavy && r.chance(1, 30) {
             // a snapshot re-taken under its name after rows of the first take have gone (relays are
